@@ -48,7 +48,7 @@ def run (clis : List Cli) : RunRes := runLoop clis {}
 def sanitize (name : List Char) : Option (List Char) :=
   if '\x00' ∈ name then none
   else if '/' ∈ name then none
-  else if name = ['.'] ∨ name = ['.', '.'] then none
+  else if name = [] ∨ name = ['.'] ∨ name = ['.', '.'] then none
   else some name
 
 inductive TaskOutcome where
